@@ -1422,7 +1422,7 @@ def judge(res, js, line, meta, r):
         if f['opcode'] != (1 if kind == 'send_text' else 2) or f['fin'] != 1 or f['rsv2'] or f['rsv3']:
             fail('client-frame-header', 'data frame header wrong', observed=f, expected=kind)
             continue
-        if f['rsv1'] != want_rsv1:
+        if f['rsv1'] and not want_rsv1:       # compression is permitted when negotiated and requested, never required
             fail('rsv1', 'RSV1=%d on a send with compress=%s, negotiated=%s' % (f['rsv1'], flag, meta['negotiated']), observed=f['rsv1'], expected=want_rsv1)
             continue
         if not f['rsv1']:
